@@ -67,7 +67,7 @@ class JP_Abs(JumpInstruction):
 
         first, *rest = self.operands()
         assert len(rest) == 0, "Expected no extra operands"
-        if isinstance(first, ImmOperand):
+        if isinstance(first, ImmOperand) and not isinstance(first, Pointer):
             # absolute address
             assert first.value is not None, "Value not set"
             dest = first.value
@@ -77,6 +77,11 @@ class JP_Abs(JumpInstruction):
                 BranchType.TrueBranch if self._cond else BranchType.UnconditionalBranch
             )
             info.add_branch(branch_type, dest)
+        else:
+            # JP (n) / JP r3: the target is read from internal memory or a
+            # register, so it is not known statically and there is no
+            # fallthrough.
+            info.add_branch(BranchType.UnresolvedBranch)
 
 
 class JP_Rel(JumpInstruction):
